@@ -34,6 +34,7 @@ class Arr:
         self.base = None      # fallback applied-undef name
         self.opaque = False
         self.entry_from = None   # inside a loop body: defs[:entry_from] are pre-loop; reads of them yield placeholders
+        self.ranges = {}         # position in defs -> index-range condition of a loop comprehension (kvs-based)
 
     def copy(self):
         a = Arr(self.name)
@@ -42,6 +43,7 @@ class Arr:
         a.base = self.base
         a.opaque = self.opaque
         a.entry_from = self.entry_from
+        a.ranges = dict(self.ranges)
         if hasattr(self, 'dims'):
             a.dims = self.dims
         return a
@@ -67,6 +69,9 @@ class Arr:
             sub = dict(zip(kv, idx))
             g = guard.subs(sub) if guard is not None else S.true
             g = simplify_bool(g)
+            if len(self.ranges) >= 2 and pos in self.ranges:
+                # several comprehensions may cover disjoint index ranges of this array: the range matters
+                g = sp.And(g, self.ranges[pos].subs(sub))
             rest = idx[len(kv):]
             t = term.subs(sub)
             if rest:
@@ -1221,6 +1226,7 @@ class Symx:
                     if t2.has(ef):
                         t2 = t2.replace(ef, lambda *ix: base.read(tuple(ix)))
                     newarr.defs.append((kvs, sp.And(kv_guard, pc2), t2))
+                    newarr.ranges[len(newarr.defs) - 1] = inrange.subs(isub)
             if grew is not False and len0 is not None:
                 newarr.length = len0 + (hi - lo) * grew
             newarr.entry_from = base.entry_from
